@@ -195,7 +195,9 @@ def gen_weights(rng, n, kind):
         elif kind == "tiny":
             w = mant() * 1e-300
         elif kind == "subnormal":
-            w = rng.choice([5e-324, 1e-323, 2.2250738585072014e-308, mant() * 1e-310])
+            # all binades of the subnormal range, the largest one ([2^-1023, 2^-1022)) and the smallest normals included
+            w = rng.choice([5e-324, 1e-323, 2.2250738585072014e-308, mant() * 1e-310, mant() * 1e-320, 1.2e-308 + mant() * 1e-309,
+                            2.2250738585072009e-308, 2.3e-308, mant() * 1e-315])
         elif kind == "huge":
             w = mant() * 1e300
         elif kind == "max":
@@ -281,6 +283,8 @@ STAT_VECTORS = [
     ("probabilities", ["0.05", "0.15", "0.3", "0.5"]),
     ("subnormal-5e-324", ["5e-324", "1.5e-323"]),
     ("subnormal-1e-310", ["1e-310", "3e-310", "1e-310"]),
+    ("top-subnormal-binade", ["1.2e-308", "3.6e-308"]),
+    ("around-min-normal", ["1.2e-308", "2.2e-308", "1.2e-308"]),
     ("near-max-1e308", ["4e307", "1.2e308"]),
     ("max-equal-1.7e308", ["1.7e308", "1.7e308"]),
 ]
